@@ -151,10 +151,10 @@ Definition expr_operands_ok (m : module) (nargs nlocals : nat) (e : expr) : bool
   | _ => true
   end.
 
-Definition chk_exprs (m : module) (fn nargs nlocals : nat) (es : list expr) : list wf_violation :=
+Definition chk_exprs (c1 c2 : string) (m : module) (fn nargs nlocals : nat) (es : list expr) : list wf_violation :=
   check_idx (fun i e =>
-               guard (all_lt i (expr_refs e)) "handles.expr_backward" fn i ++
-               guard (expr_operands_ok m nargs nlocals e) "handles.expr_operand_range" fn i)
+               guard (all_lt i (expr_refs e)) c1 fn i ++
+               guard (expr_operands_ok m nargs nlocals e) c2 fn i)
             0 es.
 
 Definition stmt_handles_ok (m : module) (nexprs : nat) (s : stmt) : bool :=
@@ -178,7 +178,7 @@ Definition chk_func_handles (m : module) (fn : nat) (f : func) : list wf_violati
   guard (match f_result f with Some r => fr_type r <? nt | None => true end) "handles.result_type" fn 0 ++
   check_idx (fun i l => guard (lv_type l <? nt) "handles.local_type" fn i ++
                         guard (opt_lt ne (lv_init l)) "handles.local_init" fn i) 0 (f_locals f) ++
-  chk_exprs m fn (List.length (f_args f)) (List.length (f_locals f)) (f_exprs f) ++
+  chk_exprs "handles.expr_backward" "handles.expr_operand_range" m fn (List.length (f_args f)) (List.length (f_locals f)) (f_exprs f) ++
   guard (List.length (f_expr_types f) =? ne) "handles.expression_types_length" fn (List.length (f_expr_types f)) ++
   chk_recorded_handle m fn (f_expr_types f) ++
   forall_block (body_fuel f) (fun s => guard (stmt_handles_ok m ne s) "handles.statement" fn 0) fn (f_body f) ++
@@ -186,7 +186,7 @@ Definition chk_func_handles (m : module) (fn : nat) (f : func) : list wf_violati
 
 Definition chk_handles (m : module) : list wf_violation :=
   chk_types m ++ chk_constants m ++ chk_globals m ++ chk_overrides m ++
-  chk_exprs m mod_fn 0 0 (m_global_exprs m) ++
+  chk_exprs "handles.global_expr_backward" "handles.global_expr_operand_range" m mod_fn 0 0 (m_global_exprs m) ++
   check_idx (chk_func_handles m) 0 (all_funcs m).
 
 (* ------------------------------------------------------------------ *)
@@ -353,6 +353,36 @@ Fixpoint uninferred_from (fn : nat) (es : list expr) (inferred : list (option ty
     uninferred_from fn es' inf' (S i)
   | _, _ => []
   end.
+
+(* module scope: GlobalExpressions carry no recorded types; they are typed by the typifier alone.
+   Compose components must fit the composed type, and the init expression of a constant /
+   global variable / override must have the declared type. *)
+Definition global_func (m : module) : func := mkfunc "" [] None [] (m_global_exprs m) [] [] [].
+
+Definition chk_global_types (m : module) : list wf_violation :=
+  let tys := infer_all m (global_func m) in
+  check_idx (fun i e =>
+               match e with
+               | ECompose t cs =>
+                 guard (match tinner m t with Some ti => compose_ok m ti (map (prev_ty tys) cs) | None => false end)
+                       "global.compose_components" mod_fn i
+               | _ => []
+               end ++
+               guard (negb (existsb (fun r => is_pointer_type (prev_ty tys r)) (value_operands e)))
+                     "global.pointer_operand" mod_fn i) 0 (m_global_exprs m) ++
+  check_idx (fun i c => guard (match prev_ty tys (c_init c) with
+                               | Some t => opt_inner_eqb (tinner m (c_type c)) (Some t)
+                               | None => true end) "global.constant_init_type" mod_fn i) 0 (m_constants m) ++
+  check_idx (fun i g => guard (match g_init_expr g with
+                               | Some h => match prev_ty tys h with
+                                           | Some t => opt_inner_eqb (tinner m (g_type g)) (Some t)
+                                           | None => true end
+                               | None => true end) "global.variable_init_type" mod_fn i) 0 (m_globals m) ++
+  check_idx (fun i o => guard (match o_init o with
+                               | Some h => match prev_ty tys h with
+                                           | Some t => opt_inner_eqb (tinner m (o_type o)) (Some t)
+                                           | None => true end
+                               | None => true end) "global.override_init_type" mod_fn i) 0 (m_overrides m).
 
 (* ------------------------------------------------------------------ *)
 (* clause 5: emit discipline *)
@@ -720,7 +750,7 @@ Definition chk_func (m : module) (fn : nat) (f : func) : list wf_violation :=
   chk_expr_types m fn f tys recd ++ chk_emit_func fn f ++ chk_returns m fn f tys recd ++ chk_store_call m fn f tys recd.
 
 Definition wf_module (m : module) : list wf_violation :=
-  chk_handles m ++ chk_abstract m ++ chk_unique m ++
+  chk_handles m ++ chk_abstract m ++ chk_unique m ++ chk_global_types m ++
   check_idx (chk_func m) 0 (all_funcs m) ++
   check_idx (chk_entry m) 0 (m_entry_points m).
 
